@@ -265,16 +265,16 @@ theorem table_step_near_target (e0 e1 : Int) (m : Rat) (hm : 0 < m) (i : Nat)
   have ta := table_adjacent i h0 hlt
   exact near_target_core lo hi' target ta.1 (sp.1 (i - 1) (by omega)) (sp.2 hlt) ta.2
 
-/-- **Count**: for counts 2…50 the number of ticks lies between m/2.4 − 1 and 2.4·m + 1, or the domain is shorter
+/-- **Count**: for EVERY whole count m ≥ 2 the number of ticks lies between m/2.4 − 1 and 2.4·m + 1, or the domain is shorter
 than m milliseconds and gets one tick per millisecond -/
-theorem tick_count (d0 d1 : Int) (m : Nat) (hm : 2 ≤ m ∧ m ≤ 50) :
+theorem tick_count (d0 d1 : Int) (m : Nat) (hm : 2 ≤ m) :
     countB (min d0 d1) (max d0 d1) (m : Rat) (ticks d0 d1 (m : Rat)) = true := by
-  exact count_ok d0 d1 m hm.1
+  exact count_ok d0 d1 m hm
 
-/-- **C16 in full** for the model: the complete tick predicate holds for every domain and every count 2…50 -/
-theorem ticks_ok (d0 d1 : Int) (m : Nat) (hm : 2 ≤ m ∧ m ≤ 50) :
+/-- **C16 in full** for the model: the complete tick predicate holds for every domain and EVERY whole count m ≥ 2 -/
+theorem ticks_ok (d0 d1 : Int) (m : Nat) (hm : 2 ≤ m) :
     ticksOKB d0 d1 (m : Rat) (ticks d0 d1 (m : Rat)) = true := by
-  exact ticksOK_all d0 d1 m hm.1
+  exact ticksOK_all d0 d1 m hm
 
 /-- the heart of `nice_ok`: there is a tick grid `Q` — the ticks of the original domain are exactly the points of `Q`
 inside it, consecutive points of `Q` are between `a` and `b ≤ 2a` apart — such that the nice domain's lower end is the
@@ -286,10 +286,10 @@ theorem nice_nearest_grid_points (d0 d1 : Int) (m : Rat) (hm : 0 < m) :
       LeastGE Q (max d0 d1) (if d1 < d0 then (nice d0 d1 m).1 else (nice d0 d1 m).2) := by
   exact nice_nearest d0 d1 m hm
 
-/-- **C14 (time part) in full** for the model: for every domain and every count 2…50 the nice domain satisfies the complete predicate: ends only move outward, by less than two tick steps (largest gap of the original domain's ticks), onto boundaries at least as coarse as the tick spacing -/
-theorem nice_ok (d0 d1 : Int) (m : Nat) (hm : 2 ≤ m ∧ m ≤ 50) :
-    niceOKB d0 d1 (m : Rat) (nice d0 d1 (m : Rat)).1 (nice d0 d1 (m : Rat)).2 = true := by
-  exact niceOK_all d0 d1 (m : Rat) (by exact_mod_cast (show 0 < m by omega))
+/-- **C14 (time part) in full** for the model: for every domain and EVERY positive count (whole or fractional) the nice domain satisfies the complete predicate: ends only move outward, by less than two tick steps (largest gap of the original domain's ticks), onto boundaries at least as coarse as the tick spacing -/
+theorem nice_ok (d0 d1 : Int) (m : Rat) (hm : 0 < m) :
+    niceOKB d0 d1 m (nice d0 d1 m).1 (nice d0 d1 m).2 = true := by
+  exact niceOK_all d0 d1 m hm
 
 -- non-vacuity (evaluated): the domain below has nine ticks 3 h apart; its ends move out by 1 s and 1 h 40 min
 example : niceOKB 1000 90000000 10 0 97200000 = true := by
